@@ -886,9 +886,12 @@ impl StreamsState {
         let receive_window = receive_window.into();
         let mut expanded = false;
         if receive_window > self.receive_window {
-            self.local_max_data = self
-                .local_max_data
-                .saturating_add(receive_window - self.receive_window);
+            // Debt left over from an earlier shrink is cancelled first: only the remainder widens
+            // what the peer may send
+            let diff = receive_window - self.receive_window;
+            let cancelled = self.receive_window_shrink_debt.min(diff);
+            self.receive_window_shrink_debt -= cancelled;
+            self.local_max_data = self.local_max_data.saturating_add(diff - cancelled);
             expanded = true;
         } else {
             let diff = self.receive_window - receive_window;
